@@ -174,3 +174,18 @@ func Hash(s string) string {
 	h := sha1.Sum([]byte(s))
 	return hex.EncodeToString(h[:8])
 }
+
+// HasExactFill reports whether some data segment of the directory is exactly full.
+func HasExactFill(dir string, seg int64) bool {
+	m, _ := filepath.Glob(filepath.Join(dir, "*.dat"))
+	for _, p := range m {
+		b, err := ioutil.ReadFile(p)
+		if err != nil {
+			continue
+		}
+		if _, end := ParseRecords(b); int64(end) == seg {
+			return true
+		}
+	}
+	return false
+}
